@@ -24,6 +24,7 @@ Direct oracle (real code only): a reference map written from the statement.
 """
 import errno
 import logging
+import sys
 import socket
 import threading
 import warnings
@@ -43,21 +44,35 @@ NAMESPACE = "Rpyc.Props.C18"
 GEN = ["Registry.lean", "Brine.lean"]
 DRIVERS = ["drv_registry"]
 TRUSTED = [
+    "the interpreter: CPython %d.%d.%d at /venv/bin/python - two facts are measured on it and are proof obligations "
+    "(all_brine_values_hashable: `slice` is hashable from 3.12 on, before that a register with a slice port is refused "
+    "AFTER `_add_service` has created an empty inner dict; logger_warn_survives: `Logger.warn` exists until 3.12, on 3.13 "
+    "the first wrong-magic / unknown-command datagram ends `_work`); the model has both other branches" % sys.version_info[:3],
     "modelled, not verified: Python's `==`/hash on dict keys (numeric tower, frozensets as sets) as `keyCode`; "
     "tuple/str/bytes/frozenset iteration and argument-count errors of a call; `str.upper`/`str.lower` of non-ASCII "
     "text and frozenset iteration order are supplied by the harness from the running interpreter; the stand-in "
     "sockets (datagram truncation at the requested size, `socket.timeout` after the configured timeout, EMFILE "
-    "when the descriptor limit is reached, a dropped socket object is closed) stand for the kernel",
-    "not modelled (skipped by the correspondence, counted): a NaN inside a port (NaN dict keys are equal by object "
-    "identity only), TAG_SLICE applied to a frozenset, Python's recursion limit",
+    "when the descriptor limit is reached, a dropped socket object is closed) stand for the kernel; a handful of "
+    "histories run on the real servers over real loopback sockets (own __init__, bind, listen(10), settimeout, start())",
+    "not modelled (skipped by the correspondence, counted): a NaN inside a port or host (NaN dict keys are equal by object "
+    "identity only), TAG_SLICE applied to a frozenset, Python's recursion limit; the kernel's listen backlog "
+    "(`listen(10)`: connections beyond it wait or are refused by the kernel while the registry sits in a silent client's TIMEOUT)",
 ]
 ASSUMPTIONS = [
     "membership is the stored table: an entry exists from its first register until unregister or until a query "
     "prunes it; a stale entry that is refreshed before any query pruned it stays the same member (no notification); "
-    "a query never returns a stale entry",
+    "a query never returns a stale entry; stale entries under names nobody queries stay stored",
     "the reply compared is what the registry hands to its transport; a reply larger than the transport's datagram "
     "(or than the MAX_DGRAM_SIZE bytes rpyc's own clients read) is outside the model",
     "callbacks on_service_added / on_service_removed may raise; the registry logs and carries on (exercised)",
+    "logging calls cannot raise: `_work` calls self.logger.warn(...) outside every try (wrong magic, unknown command) and "
+    "logger.exception / debug elsewhere; true of a real logging.Logger on this interpreter (obligation "
+    "logger_warn_survives; a quarter of the correspondence and all real-socket histories run with one at DEBUG level), "
+    "not of a user-supplied logger whose methods raise",
+    "TCP: 'cannot be stopped from answering others' is a bound on delay, not immunity from delay: each silent client costs "
+    "TCPRegistryServer.TIMEOUT (3000 ms) for everyone queued behind it, which already exceeds the 2000 ms default reply "
+    "timeout of rpyc's own TCPRegistryClient (silentClientsTolerated = (2000-1)/3000 = 0, theorem tcp_delay_and_patience): "
+    "a default client behind one silent client gives up although the registry answers it 3 s later",
     "`registry_never_dies` assumes: histories of fewer than 2^32 datagrams from the empty registry; each datagram a "
     "genuine byte string as `_recv` returns it (at most MAX_DGRAM_SIZE bytes); the host text the transport reports is "
     "something brine.dump accepts; iterating a frozenset yields members of it (`EnvOk`)",
@@ -68,8 +83,12 @@ EXPLANATION = ("Theorems over all histories of datagrams (every byte string) and
                "notifications are in bijection with membership changes (per step and per history); every datagram of every "
                "history leaves the loop running (whatever brine.load returns can be dumped again; a name gains at most "
                "one server per datagram), a datagram that is not a well-formed command changes nothing at all, a "
-               "well-formed one only the entries it names; every TCP client is accepted whatever earlier clients did "
-               "and a silent one costs exactly the socket timeout.")
+               "well-formed one only the entries it names, and no datagram touches a live registration of another host "
+               "(stated on the sender's host, independent of the model's parsing; the malformed classes are also stated "
+               "on the decoded value itself); case-insensitivity explicit; every TCP client is accepted whatever "
+               "earlier clients did and k silent ones cost exactly k x TIMEOUT - a delay (3000 ms each, more than a "
+               "default client's 2000 ms patience), not a knock-over.  Interpreter facts (hashable slice, Logger.warn) "
+               "are generated proof obligations with the other branch modelled.")
 
 
 def reg():
@@ -864,8 +883,11 @@ def correspondence(ctx):
     c = Corr()
     c.rule = ("(a) seeded histories of register/unregister/query/clock moves from up to 4 hosts x 4 ports x 15 aliases "
               "(case variants, non-ASCII, empty), pruning intervals {0, 1 ms, 3 s, 10 s, default}, with malformed datagrams "
-              "and (tcp) silent clients and descriptor limits mixed in, on the scripted base class, the real UDP server and "
-              "the real TCP server; (b) datagram streams over a populated table: all byte strings of length <= 1, a sample "
+              "and (tcp) silent clients and descriptor limits mixed in, clocks that also go backwards, a negative pruning "
+              "interval, non-text hosts (base class), a quarter with a real logging.Logger, on the scripted base class, the "
+              "real UDP server and the real TCP server; every c04 value shape as the host; a handful of histories on the "
+              "real servers over real loopback sockets (own __init__/start(), one silent TCP client at the real TIMEOUT); "
+              "every unanswered datagram is also checked to have left no trace; (b) datagram streams over a populated table: all byte strings of length <= 1, a sample "
               "(thorough: all) of length 2, c04's mutations of well-formed commands and of valid encodings, random bytes, "
               "every c04 value shape in place of magic/command/args/name/names/port. Compared after every event: reply, "
               "notifications, whole services table in dict order with times, loop alive (tcp: accepted, elapsed, tracked "
@@ -971,6 +993,15 @@ def correspondence(ctx):
     except DriverError as ex:
         c.error = str(ex)
         return c
+    R_ = reg()
+    c.extra["tcp_patience"] = dict(server_timeout_ms=int(R_.TCPRegistryServer.TIMEOUT * 1000), client_default_timeout_ms=2000,
+                                   note="see theorem tcp_delay_and_patience: silent clients tolerated by a default-timeout client "
+                                        "= (client - 1) // server")
+    import inspect as _insp
+    c.extra["tcp_patience"]["client_default_timeout_ms"] = int(_insp.signature(R_.TCPRegistryClient.__init__).parameters["timeout"].default * 1000)
+    c.extra["tcp_patience"]["silent_clients_tolerated"] = ((c.extra["tcp_patience"]["client_default_timeout_ms"] - 1)
+                                                           // c.extra["tcp_patience"]["server_timeout_ms"])
+    c.extra["logging_format_errors_with_real_logger"] = _Sink.errors
     c.extra["observations"] = [
         "outside the statement (it is about the registry's answer, which is correct here) and assumed away: a reply is one "
         "datagram / one recv(MAX_DGRAM_SIZE) on the client side; with about 76 or more servers under one name (reply > 1500 "
@@ -1310,7 +1341,7 @@ def oracle_search(ctx, corr, broken):
     def candidates():
         for d in corr.disagreements[:200]:
             cs = d.get("case", {})
-            if cs.get("kind") == "history":
+            if cs.get("kind") in ("history", "real-sockets"):
                 yield cs["mode"], cs["pruning_ms"], cs["fd_limit"], dec_events(cs["events"]), None
         for h in boundary_histories():
             yield h + (None,)
